@@ -13,6 +13,7 @@ object-aware subclass in sa.objinterp).
 """
 import ast
 import copy
+import threading
 
 from .consteval import Folder, SymStr, TOP, Unknown, _BINOPS
 from .report import AnalysisError
@@ -31,6 +32,49 @@ class Outcome:
 
     def __repr__(self):
         return "<%s %r assume=%s%s>" % (self.term, self.value, self.assumptions, " OPAQUE:%s" % self.opaque if self.opaque else "")
+
+
+class YieldChannel(list):
+    """The list a generator body appends its yielded values to, turned into a hand-off point: the body (running in its own
+    thread) stops after every yield until the consumer asks for the next value.  Only one of the two threads ever runs, so the
+    evaluator's shared state needs no locking.  Used on request only (ObjInterp.lazy); ordinary evaluation collects eagerly."""
+
+    def __init__(self):
+        list.__init__(self)
+        self.cv = threading.Condition()
+        self.want = 0            # how many values the consumer has asked for so far
+        self.done = False
+        self.result = None
+
+    def __deepcopy__(self, memo):
+        return self
+
+    def wait_until_wanted(self):
+        with self.cv:
+            while self.want <= len(self):
+                if not self.cv.wait(timeout=120):
+                    raise AnalysisError("lazy generator: the consumer never came back")
+
+    def append(self, v):
+        list.append(self, v)
+        with self.cv:
+            self.cv.notify_all()
+        self.wait_until_wanted()
+
+    def next(self):
+        """('value', v) | ('stop', result of the call)"""
+        with self.cv:
+            self.want += 1
+            self.cv.notify_all()
+            while len(self) < self.want and not self.done:
+                if not self.cv.wait(timeout=120):
+                    raise AnalysisError("lazy generator: no answer from the generator body")
+            if len(self) >= self.want:
+                return ("value", self[self.want - 1])
+            return ("stop", self.result)
+
+
+_TLS = threading.local()
 
 
 class FoldedRaise(Exception):
@@ -497,10 +541,14 @@ class BlockEval:
             env[st.name] = LocalFunc(st, env)
             return [state]
         if isinstance(st, (ast.Import, ast.ImportFrom)):
-            from .consteval import Opaque
+            from .consteval import Opaque, _COPY, _shallow_copy
             for a in st.names:
                 nm = (a.asname or a.name).split(".")[0]
-                if nm not in env:
+                if isinstance(st, ast.Import) and a.name == "copy":
+                    env[nm] = _COPY
+                elif isinstance(st, ast.ImportFrom) and st.module == "copy" and a.name == "copy" and not st.level:
+                    env[nm] = _shallow_copy
+                elif nm not in env:
                     env[nm] = Opaque("module %s" % a.name)
             return [state]
         if isinstance(st, (ast.ClassDef, ast.Global, ast.Nonlocal)):
@@ -511,7 +559,14 @@ class BlockEval:
     def run_function(self, fnode, env):
         gen = _is_generator(fnode)
         if gen:
-            env["__yield__"] = []
+            ch = getattr(_TLS, "channel", None)
+            if ch is not None:
+                # the generator requested through ObjInterp.lazy: nothing of its body runs before the first next()
+                _TLS.channel = None
+                env["__yield__"] = ch
+                ch.wait_until_wanted()
+            else:
+                env["__yield__"] = []
         outs = []
         falls = self._block(list(fnode.body), [(env, [], [])], outs)
         for env2, assume, eff in falls:
